@@ -16,18 +16,18 @@ def AOutGood (IM : M → Prop) : AOut M → Prop
   | .done a s => (∀ m ∈ a.ms, IM m) ∧ EngGood IM s
   | .cancelled s => EngGood IM s
 
-theorem iterEnd_good (cfg : Cfg) (o : Oracle M) (base i : Int) (a : ALoop M) (r : Res M × Eng M)
+theorem iterEnd_engGood (cfg : Cfg) (o : Oracle M) (base i : Int) (a : ALoop M) (r : Res M × Eng M)
     (hr : ResGoodIM IM r) : AOutGood IM (iterEnd cfg o base i a r) := by
   unfold iterEnd
   split
   · exact hr.1
   · rename_i next hnext
     split
-    · exact load_good o hr.1
+    · exact load_engGood o hr.1
     · have hn : ∀ m ∈ next, IM m := hr.2 next hnext
       rcases iterDone_cases cfg base i a next r.1.2 (load o r.2).2 with e | e <;> rw [e]
-      · exact ⟨hn, load_good o hr.1⟩
-      · exact ⟨hn, load_good o hr.1⟩
+      · exact ⟨hn, load_engGood o hr.1⟩
+      · exact ⟨hn, load_engGood o hr.1⟩
 
 theorem analyzeStep_sim [DecidableEq M] (hR : Restr g S IM) (cfg : Cfg) (hnn : cfg.opts.noNullMove = true)
     (o : Oracle M) (hord : OrderOK o) (p' : {p // S 0 p}) (hk : S Facts.maxDepth p'.val) (base i : Int)
@@ -37,7 +37,7 @@ theorem analyzeStep_sim [DecidableEq M] (hR : Restr g S IM) (cfg : Cfg) (hnn : c
   unfold analyzeStep
   refine Sim.bind' (pvSearch_sim hR cfg.opts hnn o hord 0 p' hk _ _ ha _ _ _ (hs.of_eq rfl rfl rfl)) ?_
   intro r hr
-  exact Sim.ok (iterEnd_good cfg o base i a r hr)
+  exact Sim.ok (iterEnd_engGood cfg o base i a r hr)
 
 theorem analyzeLoop_sim [DecidableEq M] (hR : Restr g S IM) (cfg : Cfg) (hnn : cfg.opts.noNullMove = true)
     (o : Oracle M) (hord : OrderOK o) (p' : {p // S 0 p}) (hk : S Facts.maxDepth p'.val) (base : Int) :
@@ -80,7 +80,7 @@ theorem analyzeFrom_sim [DecidableEq M] (hR : Restr g S IM) (cfg : Cfg) (hnn : c
     obtain ⟨a, s1⟩ := x
     exact Sim.ok (hsat _ hr)
 
-theorem seedOf_good (te : Option (TEntry M)) (h : ∀ e, te = some e → IM e.m) : ∀ m ∈ (seedOf te).2.1, IM m := by
+theorem seedOf_engGood (te : Option (TEntry M)) (h : ∀ e, te = some e → IM e.m) : ∀ m ∈ (seedOf te).2.1, IM m := by
   unfold seedOf
   cases te with
   | none => intro m hm; cases hm
@@ -103,9 +103,9 @@ theorem analyze_sim [DecidableEq M] (hR : Restr g S IM) (cfg : Cfg) (hnn : cfg.o
   have e : (g.restrict (S 0) IM).hash p' = g.hash p'.val := rfl
   rw [e]
   have hs0 : EngGood IM { s with loads := 0, evals := 0, sorts := 0, rnds := 0, wlog := [] } := hs.of_eq rfl rfl rfl
-  refine Sim.bind' (Sim.refl (ttGet_good hs0 _)) ?_
+  refine Sim.bind' (Sim.refl (ttGet_engGood hs0 _)) ?_
   intro te hte
-  exact analyzeFrom_sim hR cfg hnn o hord p' hk _ (seedOf_good te hte) _ hs0
+  exact analyzeFrom_sim hR cfg hnn o hord p' hk _ (seedOf_engGood te hte) _ hs0
 
 /-! ### `AnalyzeAll`, `GetMove` -/
 
